@@ -35,14 +35,14 @@ fn levels(l0: u32, l1: u32, l2: u32, l3: u32) {
     allow_at(2, l2, u64::MAX);
     allow_at(3, l3, u64::MAX);
 }
-use crate::instruction::verif_gate::{K_ARRAYREPEAT, K_BINOPERATION, K_BLOCK, K_IFELSE, K_LOCALVARIABLE, K_SET, K_UNARYOPERATION, K_VARIABLE};
+use crate::instruction::verif_gate::{K_ARRAYREPEAT, K_BINOPERATION, K_BLOCK, K_IFELSE, K_SET, K_UNARYOPERATION, K_VARIABLE};
 const V: u32 = 1 << K_VARIABLE;
 const BO: u32 = 1 << K_BINOPERATION;
 const UO: u32 = 1 << K_UNARYOPERATION;
 const BL: u32 = 1 << K_BLOCK;
 const IE: u32 = 1 << K_IFELSE;
 const ST: u32 = 1 << K_SET;
-const LV: u32 = 1 << K_LOCALVARIABLE;
+const LV: u32 = 0; // `LocalVariable` (two payload fields) is dispatched inline and not gated
 const AR: u32 = 1 << K_ARRAYREPEAT;
 fn iws(i: Instruction) -> InstructionWithStr {
     InstructionWithStr { instruction: i, str: "e".into() }
